@@ -129,6 +129,8 @@ class CallMixin:
             return st.env[f"$vis{n.args[0].value}" if n.args else "$viscur"]
         if name == "index":
             return st.env[f"$idx{n.args[0].value}" if n.args else "$idxcur"]
+        if name == "iterated":
+            return st.env[f"$it{n.args[0].value}"]
         if name == "smt":
             fmt = n.args[0].value
             kw = {k.arg: self.ev(k.value, st, old) for k in n.keywords}
@@ -523,6 +525,8 @@ class CallMixin:
                 st.pc.append(f"(forall ((|q_a| Int)) (! (=> (and (>= |q_a| 0) (< |q_a| (seq.len {recv.s}))) (= (seq.nth {r.s} |q_a|) (seq.nth {recv.s} |q_a|))) :pattern ((seq.nth {r.s} |q_a|)) :pattern ((seq.nth {recv.s} |q_a|))))")
                 st.pc.append(f"(= (seq.nth {r.s} (seq.len {recv.s})) {x.s})")
                 st.pc.append(f"(forall ((|q_e| {sort_smt(s[1])})) (! (= (seq.contains {r.s} (seq.unit |q_e|)) (or (seq.contains {recv.s} (seq.unit |q_e|)) (= |q_e| {x.s}))) :pattern ((seq.contains {r.s} (seq.unit |q_e|)))))")
+                if self.cur_contract.get("on_append"):
+                    self.cur_contract["on_append"](self, st, recv, r, x)     # facts about contract-level abstractions of the extended list
                 if self.store_back(f.value, r, st):
                     return T(NONE, "none")
             if at == "extend" and len(n.args) == 1:
